@@ -38,7 +38,7 @@ func init() {
 			sc.TermPct = 0
 			sc.MaxItems = 6
 			sc.WCmd = 3
-			sc.Bundle = false // bundles are merged below, once P is final
+			sc.Bundle = false            // bundles are merged below, once P is final
 			pre := GenScenario(r, p, sc) // P: options and commands only
 			t := Resolve(p)
 			g := &scenGen{r: r, cfg: sc, tree: t, node: t.Root, pay: NewPayloads(r), mode: p.Mode}
